@@ -4,6 +4,7 @@ from collections import Counter
 
 from ..core import AnalysisError
 from .. import cfront as C
+from .. import cgsa, gsa
 
 EXPLANATION = ('The order in which _g_ir_node_build_typelib (girnode.c) lays out the variable-length sections of object, '
                'interface, struct, union and enum blobs is extracted from the clang AST and turned into expected prefix sums; '
@@ -74,8 +75,50 @@ def poly(tu, n, env=None):
     if k == 'CallExpr':
         nm = C.callee(n)
         args = [ns(tu.text_of(a)) for a in C.call_args(n)]
+        inl = inline_poly(tu, nm, C.call_args(n), env)
+        if inl is not None:
+            return inl
         return {('CALL:%s(%s)' % (nm, ','.join(args)),): 1}
     return {('<%s:%s>' % (k, ns(tu.text_of(n))[:40]),): 1}
+
+
+def inline_poly(tu, nm, args, env, depth=0):
+    """polynomial of a call to a small static helper of the same file: `static gsize f (Blob *blob) { [locals;] return <expr>; }`"""
+    f = tu.functions.get(nm) if nm else None
+    if f is None or tu.body(f) is None or f.get('storageClass') != 'static' or depth > 2:
+        return None
+    body = C.kids(tu.body(f))
+    rets = [x for x in C.walk(tu.body(f)) if x.get('kind') == 'ReturnStmt']
+    if len(rets) != 1 or body[-1] is not rets[0] or any(x.get('kind') not in ('DeclStmt', 'ReturnStmt') for x in body):
+        return None
+    params = tu.params(f)
+    if len(params) != len(args):
+        return None
+    rename = {}
+    for p_, a in zip(params, args):
+        path = C.member_path(a)
+        if path is None:
+            return None
+        rename[p_.get('name')] = path
+    sub = {}
+
+    def rn(path):
+        head = re.split(r'->|\.', path, 1)[0]
+        if head in rename:
+            return rename[head] + path[len(head):]
+        return path
+
+    def walk_poly(x):
+        p = poly(tu, x, sub)
+        out = {}
+        for k_, v in p.items():
+            out[tuple(sorted(rn(t) for t in k_))] = out.get(tuple(sorted(rn(t) for t in k_)), 0) + v
+        return out
+    for st in body[:-1]:
+        for d in C.kids(st):
+            if d.get('kind') == 'VarDecl' and C.kids(d) and d.get('init'):
+                sub[d.get('name')] = walk_poly(C.kids(d)[-1])
+    return walk_poly(C.kids(rets[0])[0])
 
 
 def fmt(p):
@@ -282,12 +325,31 @@ def check(ctx):
         for fname, f in sorted(tu.functions.items()):
             if 'field_offset' not in fname or not tu.in_main_file(f):
                 continue
-            adds = []
-            for n in C.walk(tu.body(f)):
-                if n.get('kind') == 'CompoundAssignOperator' and n.get('opcode') == '+=' and C.declref(C.kids(n)[0]) == 'offset':
-                    g = [ns(tu.text_of(c)) for c, pol, o in C.guards(tu, n) if pol]
-                    adds.append((C.member_path(C.kids(n)[1]), g))
-            ok = ('header->field_blob_size', []) in adds and any(a == 'header->callback_blob_size' and any('has_embedded_type' in x for x in g) for a, g in adds)
+            WS = cgsa.summarise(ctx, rel, fname)
+            locs = [e for e in WS.effects if e.kind == 'local' and e.loops]
+
+            def terms(t):
+                out = []
+                for x in re.split(r'\+', t.replace('(', '').replace(')', '')):
+                    if x.endswith('->field_blob_size'):
+                        x = 'header->field_blob_size'
+                    elif x.endswith('->callback_blob_size'):
+                        x = 'header->callback_blob_size'
+                    if x:
+                        out.append(x)
+                return sorted(out)
+            acc = sorted(set(e.target for e in locs if re.search(r'field_blob_size', e.value)))
+            ok = len(acc) == 1
+            adds = [(e.target, e.value, gsa.show(e.cond)[-80:]) for e in locs][:6]
+            if ok:
+                a_ = acc[0]
+                EMB = r'->has_embedded_type$'
+                upd = [e for e in locs if e.target == a_ and a_ in terms(e.value)]
+                emb_t = [terms(e.value) for e in upd if gsa.allowed(WS, e, [(EMB, True)])]
+                emb_f = [terms(e.value) for e in upd if gsa.allowed(WS, e, [(EMB, False)])]
+                full = sorted([a_, 'header->callback_blob_size', 'header->field_blob_size'])
+                plain = sorted([a_, 'header->field_blob_size'])
+                ok = full in emb_t and plain in emb_f and full not in emb_f and all(t_ in (full, plain) for t_ in emb_t + emb_f)
             r1b.check(ok, '%s walks fields and embedded callbacks' % fname, rel, tu.line(f), 'field walker increments: %s' % adds, detail=adds)
         if pstate in allowed_embed and not has_cb_count:
             # the container may embed callbacks but has no callback count: every accessor past the fields must use the walker
@@ -330,7 +392,8 @@ def check(ctx):
     fb = gb.body(ff)
     loops = [n for n in C.walk(fb) if n.get('kind') in ('WhileStmt', 'ForStmt', 'DoStmt')]
     cond = ns(gb.text_of(C.kids(loops[0])[0])) if loops else ''
-    r4.check('previous>=first' in cond and 'previous->offset==blob_offset' in cond, 'rewind includes the first table entry', 'girepository/gibaseinfo.c',
+    okrw = bool(re.match(r'^(\w+)>=(\w+)&&\1->offset==(\w+)$', cond)) or bool(re.match(r'^(\w+)>(\w+)&&\(\1-1\)->offset==(\w+)$', cond))
+    r4.check(okrw, 'rewind includes the first table entry', 'girepository/gibaseinfo.c',
              gb.line(ff), 'rewind loop condition is `%s`: when the first attribute of the table belongs to the node it is never reached' % cond, detail=cond)
     bs = C.calls(fb, 'bsearch')
     r4.check(len(bs) == 1 and C.declref(C.call_args(bs[0])[-1]) == 'cmp_attribute' and 'header->n_attributes' in ns(gb.text_of(C.call_args(bs[0])[2])),
